@@ -31,7 +31,7 @@ CHECKS = {
   ref="DESIGN.md §3 C05"),
  "C06": dict(
   technique=T+"reference strict DER codec, compact layout and secp256k1 key recovery; round-trip oracles over produced and synthetic signatures",
-  text="Produced signatures and synthetic (r, s) pairs with every DER integer length and every sighash flag value forced as final byte, all recovery ids and compression markers, plus eleven malformed-DER classes; all encodings must round-trip, recovery must return the signer's key in the recorded form, malformed DER must be rejected.",
+  text="Produced signatures and synthetic (r, s) pairs with every DER integer length and every sighash flag value forced as final byte, all recovery ids and compression markers, signatures over caller-supplied digests at the edges of the range (>= n, around p, near 2^256), plus eleven malformed-DER classes; all encodings must round-trip, recovery must return the signer's key in the recorded form, malformed DER must be rejected.",
   note="Trusted: refimpl::codec (strict DER), refimpl::secp::recover. Recovery ids 2/3 are not required to recover (unreachable for real signatures).",
   ref="DESIGN.md §3 C06"),
  "C07": dict(
